@@ -12,6 +12,9 @@ import TrVerif.Props.Attained
 import TrVerif.Props.NoExc
 import TrVerif.Props.C10e
 import TrVerif.Props.C07Fwd2
+import TrVerif.Props.C12Shift
+import TrVerif.Props.C12
+import TrVerif.Props.C16
 namespace Tr
 
 def nvDs : Dataset :=
@@ -115,5 +118,38 @@ theorem nv_admissible_forward :
 theorem nv_nonneg : NonnegArr nvDs := by
   have h1 : nvDs.conns = [⟨0, 1, 1000, 1300, 5, 1, true, true, -1⟩] := by decide
   intro c hc; rw [h1] at hc; simp at hc; subst hc; decide
+
+/-- ... and of the C12 theorems: both domains hold of `nvDs`, its trips are aligned, and an offset
+    of one hour keeps every clock value in range -/
+theorem nv_shift :
+    C03Dom nvDs nvFwd2 ∧ C04Dom nvDs nvRev ∧ TripsAligned nvDs ∧ ShiftInRange nvDs nvFwd2 3600 ∧ ShiftInRange nvDs nvRev 3600 := by
+  obtain ⟨hwf, htb, hend⟩ := nv_hypotheses
+  obtain ⟨hpos, hself, hr1, _, hacc, hand, _, _⟩ := nv_hypotheses_complete
+  obtain ⟨hr2, hegr, _, _, _⟩ := nv_hypotheses_reverse
+  obtain ⟨hab, _, _, _⟩ := nv_admissible_forward
+  have hal : TripsAligned nvDs := by
+    intro tr htr; rw [nv_trips tr htr]
+  have h1 : nvDs.conns = [⟨0, 1, 1000, 1300, 5, 1, true, true, -1⟩] := by decide
+  have htb' : TimesBounded (shiftDs 3600 nvDs) := by
+    intro c hc
+    obtain ⟨c0, h0, rfl⟩ := mem_conns_shift hal hc
+    rw [h1] at h0; simp at h0; subst h0; decide
+  have hab' : ArrBounded (shiftDs 3600 nvDs) := by
+    intro c hc g hg
+    obtain ⟨c0, h0, rfl⟩ := mem_conns_shift hal hc
+    rw [h1] at h0; simp at h0; subst h0
+    have : (shiftDs 3600 nvDs).egress = [⟨1, 200, 150⟩] := rfl
+    rw [this] at hg; simp at hg; subst hg; decide
+  exact ⟨⟨hwf, rfl, by decide, by decide, hpos, hself, htb, hab, hr1, hr2, by decide, hacc, hand, hegr, hend, by decide, by decide⟩,
+    ⟨hwf, rfl, by decide, by decide, hpos, htb, hr1, hr2, hegr, hend, hacc, hand, by decide⟩,
+    hal, ⟨htb', hab', by decide, by decide⟩, ⟨htb', hab', by decide, by decide⟩⟩
+
+/-- ... and the domains of the two accessibility theorems of C12 -/
+theorem nv_shift_maps : C08Dom nvDs nvFwd2 ∧ C09Dom nvDs nvRev := by
+  obtain ⟨hwf, htb, hend⟩ := nv_hypotheses
+  obtain ⟨hpos, hself, hr1, _, hacc, hand, _, _⟩ := nv_hypotheses_complete
+  obtain ⟨hr2, hegr, _, _, _⟩ := nv_hypotheses_reverse
+  exact ⟨⟨hwf, rfl, by decide, by decide, htb, hpos, hself, hr1, by decide, hacc, hand, by decide, by decide⟩,
+    ⟨hwf, rfl, by decide, by decide, hpos, hr2, hegr, hend, by decide, rfl⟩⟩
 
 end Tr
